@@ -85,7 +85,8 @@ def cases(tier, seed):
                 rng.shuffle(wins)
                 yield "rq.api", {"n": n, "mode": mode, "px": px, "chunk": rng.choice([1, 2, 10 ** 7]),
                                  "open": rng.choice(["handle", "path", "uri"]), "wins": wins[:60], "table": table,
-                                 **({"at": AT[n % 2]} if mode == "square" else {}), "prior": n % 2 == 1}
+                                 **({"at": AT[n % 2]} if mode == "square" else {}), "prior": n % 2 == 1,
+                                 "int_chroms": mode == "symm" and len(name) % 2 == 0}    # bins/chrom as plain integer IDs
     # (4) slice spellings
     for n in ((3,) if tier == "quick" else (3, 4)):
         keys = slice_keys(n)
